@@ -6,7 +6,7 @@ Recognised guard forms (all equivalent spellings give the same fact):
   assert T            |  if not T: raise ...      |  if T': raise ...  (T' the negation)   |  if T: ok else: raise
   conjunctions are split (assert A and B == assert A; assert B); `if A or B: raise` gives not-A and not-B
   for arr in [a, b, c]: <guards on arr>          (also zip([...], [...]) with the first list)
-  x = np.ascontiguousarray(x) / np.asarray(x, order=..) / np.require(..)      -> contiguity of x
+  x = np.ascontiguousarray(x) / np.asarray(x, order='C'|'F') / np.require(..) -> contiguity of x
   x = np.zeros/empty/ones(...)                                              -> contiguity and shape of x
   helper(a, b) / self._helper(a)   where the helper guards its parameters on every path to its exit
                                     (guards are inlined with parameters replaced by the arguments)
@@ -419,7 +419,10 @@ class FunctionGuards:
             t = a.targets[0]
             cn = pf.call_name(a.value)
             tgt = pf.src(t) if isinstance(t, (ast.Name, ast.Attribute)) else None
-            if tgt and (cn in MAKE_CONTIG or (cn in ORDERED_CTORS and any(k.arg == "order" for k in a.value.keywords))):
+            # order="A"/"K" (or a non-literal order) keeps whatever layout the source array has: no guarantee
+            if tgt and (cn in MAKE_CONTIG or (cn in ORDERED_CTORS and any(
+                    k.arg == "order" and isinstance(k.value, ast.Constant) and k.value.value in ("C", "F", "c", "f")
+                    for k in a.value.keywords))):
                 direct.setdefault(tgt, set()).add("contig")
             if tgt and cn in ALLOC:
                 direct.setdefault(tgt, set()).update({"contig", "shape", "dtype"})
